@@ -6,6 +6,8 @@
 extern "C" {
 #endif
 void *shim_nr_init(int s);
+void *shim_nr_init_hooked(int s); /* the same reader, reached through the SSL function-pointer hooks (pass-through transport) */
+void *shim_nw_init_hooked(int s, int (*failcb)(void *), void *cookie);
 void shim_nr_peek(void *R, uint8_t **data, size_t *len);
 int shim_nr_wait(void *R, size_t len, int (*cb)(void *, int), void *cookie);
 void shim_nr_cancel(void *R);
